@@ -610,15 +610,17 @@ def check_spawn(chk, prog, allowed):
             child = anc
         return False
 
-    def position_ok(f, c, depth=0):
-        """(ok, description) for a call c inside f"""
+    def position_ok(f, c, depth=0, met=frozenset()):
+        """(ok, description) for a call c inside f; met: the directive tests the chain of helper calls already sits under"""
         if f.name in allowed:
             trig = allowed[f.name]
-            if not trig or under_trigger(f, c, trig):
+            if not trig or trig in met or under_trigger(f, c, trig):
                 return True, "in %s%s" % (f.name, (" under the `%s` test" % trig) if trig else "")
             return False, "in %s outside the `%s` directive test" % (f.name, trig)
-        if f.static and depth < 3 and callers.get(f.name):
-            subs = [position_ok(g, cc, depth + 1) for g, cc in callers[f.name] if g.unit is f.unit]
+        if f.static and depth < 4 and callers.get(f.name):
+            # the test may sit at any level of the chain (parse_line -> parse_directive [tests "preproc "] -> directive_preproc)
+            met2 = met | frozenset(t_ for t_ in set(allowed.values()) if t_ and under_trigger(f, c, t_))
+            subs = [position_ok(g, cc, depth + 1, met2) for g, cc in callers[f.name] if g.unit is f.unit]
             if subs and all(ok for ok, _ in subs):
                 return True, "in helper %s, called only %s" % (f.name, subs[0][1])
         return False, "in %s" % f.name
